@@ -438,6 +438,17 @@ func (crashEngine) Generate(rng *rand.Rand, prop string, thorough bool) *Plan {
 	id := 0
 	for e := 0; e < nEpochs; e++ {
 		ops := append([]Op{{K: "open"}}, GenSeqOps(rng, cfg, g, &id)...)
+		if prop == "C09" && rng.Intn(3) == 0 {
+			// a maintenance-only last session: Compact (and reads) without any write, then the clean Close
+			if !openAt(ops, len(ops)) {
+				ops = append(ops, Op{K: "open"})
+			}
+			ops = append(ops, Op{K: "close"}, Op{K: "open"})
+			for n := 1 + rng.Intn(3); n > 0; n-- {
+				ops = append(ops, []Op{{K: "compact"}, {K: "get", Key: rng.Intn(cfg.NKeys)}, {K: "sync"}, {K: "count"}}[rng.Intn(4)])
+			}
+			ops = append(ops, Op{K: "compact"})
+		}
 		if prop == "C09" {
 			// end with a clean close and the next open
 			if !openAt(ops, len(ops)) {
